@@ -129,6 +129,11 @@ func (c *Ctx) declareFun(name string, args []string, res string) {
 	}
 	c.markDeclared(name)
 	c.decls = append(c.decls, fmt.Sprintf("(declare-fun %s (%s) %s)", name, strings.Join(args, " "), res))
+	if strings.HasPrefix(name, "addr_") && len(args) == 1 && args[0] == "Int" && res == "Int" {
+		// the address of a field identifies its object: different objects have different locks / wait groups / onces
+		c.decls = append(c.decls, fmt.Sprintf("(declare-fun %s_inv (Int) Int)", name),
+			fmt.Sprintf("(assert (forall ((r!a Int)) (! (= (%s_inv (%s r!a)) r!a) :pattern ((%s r!a)))))", name, name, name))
+	}
 }
 
 // freshConst declares a fresh constant of the sort.
